@@ -58,7 +58,7 @@ Section Table.
       | Err e => Err e
       | Fuel => Fuel
       end
-    | Err _ => Ok (w, [], None)      (* "if (ret) return 0;" *)
+    | Err e => Err e                 (* "if (ret) return ret;" (was "return 0" before fix 12b5ab1) *)
     | Fuel => Fuel
     end.
 End Table.
